@@ -160,10 +160,20 @@ Proof. intros H1 H2. unfold handle_event. rewrite H1, H2. reflexivity. Qed.
 (* hop 3: Worker::notify_result with an error completes the awaiter with that very error
    (worker.rs:576-582) *)
 Lemma worker_notify_same_error awaiter awaited e w pr :
-  alookup awaiter (w_procs w) = Some pr ->
+  alookup awaiter (w_procs w) = Some pr -> alookup awaited (p_awaiting pr) <> None ->
   exists pr', alookup awaiter (w_procs (worker_notify awaiter awaited (RErr e) w)) = Some pr' /\ p_res pr' = Some (RErr e).
 Proof.
-  intros H. simpl. exists (with_res (Some (RErr e)) pr). split; [apply upd_proc_same; exact H|reflexivity].
+  intros H Ha. simpl. unfold awaits. rewrite H. destruct (alookup awaited (p_awaiting pr)); [|contradiction].
+  exists (with_res (Some (RErr e)) pr). split; [apply upd_proc_same; exact H|reflexivity].
+Qed.
+
+(* ... and a failure of a process that is no longer awaited (its select has completed) does NOT
+   fail the former awaiter: it is only woken (the repair of F45) *)
+Lemma stale_failure_is_harmless awaiter awaited e w pr :
+  alookup awaiter (w_procs w) = Some pr -> alookup awaited (p_awaiting pr) = None ->
+  w_procs (worker_notify awaiter awaited (RErr e) w) = w_procs w.
+Proof.
+  intros H Ha. simpl. unfold awaits. rewrite H, Ha. unfold wake_selecting. destruct (mem awaiter (w_selecting w)); reflexivity.
 Qed.
 
 (* a query that finds the target failed registers the awaiter (status Failed is not "completed",
@@ -232,29 +242,30 @@ Proof.
 Qed.
 
 (* ------------------------------------------------------------------ refutation witnesses (the code as it is) *)
-Definition idle_did : did := {| d_taken := []; d_sel := None; d_act := None; d_park := false; d_fin := None; d_heapy := false |}.
+Definition idle_did : did := {| d_taken := []; d_sel := None; d_forget := []; d_act := None; d_park := false; d_fin := None; d_heapy := false |}.
 Definition orc (p : option pid) (d : did) : woracle :=
   {| o_pid := p; o_did := d; o_expired := [0; 1; 2]; o_awaiters := [0; 1; 2]; o_completed := [0; 1; 2] |}.
-Definition d_act_ (a : act) : did := {| d_taken := []; d_sel := None; d_act := Some a; d_park := false; d_fin := None; d_heapy := false |}.
+Definition d_act_ (a : act) : did := {| d_taken := []; d_sel := None; d_forget := []; d_act := Some a; d_park := false; d_fin := None; d_heapy := false |}.
 Definition a_sel (ts : list pid) : sel := {| sl_targets := ts; sl_cursors := [0]; sl_timeouts := []; sl_start := None |}.
 
-(* F71 (corpus/sim_c03.txt): `a = @#{ !#'int }, 5 a, !a =x, b = @#{ 2 }, [x, !b]` on one worker.
-   The snapshot of the await on `a` (answer: not completed yet) is forwarded by the environment
-   after the same-worker direct notification has already let the awaiter run on to its next Spawn;
-   update_await_results finds no result in it and calls mark_active, which re-queues a process
-   parked in `spawning`. *)
+(* F71 (corpus/sim_c03.txt; repaired by 09625d4): `a = @#{ !#'int }, 5 a, !a =x, b = @#{ 2 }, [x, !b]` on
+   one worker. The snapshot of the await on `a` (answer: not completed yet) is forwarded by the
+   environment after the same-worker direct notification has already let the awaiter run on to its
+   next Spawn. update_await_results finds no result in it; it used to call mark_active, which
+   re-queued the process parked in `spawning` (it then re-executed Spawn on an empty stack); it now
+   calls wake_selecting, which leaves it alone. *)
 Definition f71_schedule : list sched_action :=
   [ X (XStart false);
     W 0 None (orc (Some 0) (d_act_ ASpawn));                                     (* 0: a = @... *)
     E [];
-    W 0 None (orc (Some 1) {| d_taken := []; d_sel := Some (a_sel []); d_act := None; d_park := true; d_fin := None; d_heapy := false |});
+    W 0 None (orc (Some 1) {| d_taken := []; d_sel := Some (a_sel []); d_forget := []; d_act := None; d_park := true; d_fin := None; d_heapy := false |});
     W 0 None (orc (Some 0) (d_act_ (ADeliver 1)));                               (* 0: 5 a *)
-    W 0 None (orc (Some 0) {| d_taken := []; d_sel := Some (a_sel [1]); d_act := Some (AAwait [1]); d_park := false; d_fin := None; d_heapy := false |});
+    W 0 None (orc (Some 0) {| d_taken := []; d_sel := Some (a_sel [1]); d_forget := []; d_act := Some (AAwait [1]); d_park := false; d_fin := None; d_heapy := false |});
     E [];
-    W 0 None (orc (Some 1) {| d_taken := [0]; d_sel := None; d_act := None; d_park := false; d_fin := Some (ROk 5); d_heapy := false |});
-    W 0 None (orc (Some 0) (d_act_ ASpawn));                                     (* 0: b = @... *)
+    W 0 None (orc (Some 1) {| d_taken := [0]; d_sel := None; d_forget := []; d_act := None; d_park := false; d_fin := Some (ROk 5); d_heapy := false |});
+    W 0 None (orc (Some 0) {| d_taken := []; d_sel := None; d_forget := [1]; d_act := Some ASpawn; d_park := false; d_fin := None; d_heapy := false |});  (* 0: b = @... *)
     E [1];                                                                       (* only the stale snapshot *)
-    W 0 None (orc (Some 0) {| d_taken := []; d_sel := None; d_act := None; d_park := false; d_fin := Some (RErr 7); d_heapy := false |}) ].
+    W 0 None (orc None idle_did) ].                                              (* the stale update is handled *)
 
 (* spawner_gets_pid, invariant form (DESIGN §5 C04): a process is in `spawning` iff exactly one
    of {SpawnAction queued, NotifySpawn queued} holds for it *)
@@ -266,21 +277,42 @@ Definition spawner_ok (c : pid) (s : sys) : bool :=
   let spawning := existsb (fun nd => mem c (w_spawning (n_w nd))) (s_nodes s) in
   if spawning then pend =? 1 else pend =? 0.
 
-Theorem spawner_gets_pid_refuted :
-  exists s, run (init 1) f71_schedule = Good s /\ spawner_ok 0 s = false /\
-            (* the spawner was re-queued, re-executed Spawn on an empty stack and failed, while its
-               SpawnAction is still on its way *)
-            (exists pr, alookup 0 (w_procs (n_w (nth 0 (s_nodes s) {| n_w := new_worker; n_cmd := []; n_evt := [] |}))) = Some pr
-                        /\ p_res pr = Some (RErr 7)).
-Proof. vm_compute. eexists. split; [reflexivity|]. split; [reflexivity|]. eexists. split; reflexivity. Qed.
+(* regression witness: after the F71 schedule the spawner is still parked, its SpawnAction still
+   queued, the run queue empty *)
+Theorem f71_schedule_repaired :
+  exists s, run (init 1) f71_schedule = Good s /\ spawner_ok 0 s = true /\
+            w_queue (n_w (nth 0 (s_nodes s) {| n_w := new_worker; n_cmd := []; n_evt := [] |})) = [].
+Proof. vm_compute. eexists. split; [reflexivity|]. split; reflexivity. Qed.
 
-(* F72: initialize_select overwrites awaiting[t] with None although the result of t is already
-   known to the process (executor.rs:2220-2223): a later, lower-priority completion can then
-   complete the select first *)
-Definition known_proc : proc :=
-  {| p_mail := []; p_res := None; p_awaiting := [(1, Some (ROk 11))]; p_sel := None; p_pers := false; p_arrived := []; p_taken := [] |}.
-Theorem await_discards_known_result_refuted :
-  exists w' ev pr',
-    run_slice 0 0 known_proc (d_act_ (AAwait [1; 2])) [] (set_procs new_worker [(0, known_proc)]) = Good (w', ev)
-    /\ alookup 0 (w_procs w') = Some pr' /\ alookup 1 (p_awaiting pr') = Some None.
-Proof. vm_compute. do 3 eexists. split; [reflexivity|]. split; reflexivity. Qed.
+(* F72 (corpus/sim_c03.txt; known): `p1 = @#{ 11 }, p3 = @#{ !#'int, 33 }, !p1 =first, 1 p3, [first, ! [p1, p3]]`
+   on one worker. When the awaiter issues `! [p1, p3]`, p1 finished long ago — but its result is
+   only learnt from the worker's answer to the QueryAndAwait, which travels through the
+   environment, whereas the completion of p3 on the same worker notifies the awaiter directly
+   (executor.rs:1244-1280) and re-queues it: the awaiter is runnable with awaiting = {p1: None,
+   p3: Some 33} while the snapshot {p1: Some 11} is still in the worker's event queue, and a
+   Worker::step scheduled before the next Environment::step completes the select with 33. *)
+Definition f72_schedule : list sched_action :=
+  [ X (XStart false);
+    W 0 None (orc (Some 0) (d_act_ ASpawn)); E [];                               (* 0: p1 = @... *)
+    W 0 None (orc (Some 1) {| d_taken := []; d_sel := None; d_forget := []; d_act := None; d_park := false; d_fin := Some (ROk 11); d_heapy := false |});
+    W 0 None (orc (Some 0) (d_act_ ASpawn)); E [];                               (* 0: p3 = @... *)
+    W 0 None (orc (Some 2) {| d_taken := []; d_sel := Some (a_sel []); d_forget := []; d_act := None; d_park := true; d_fin := None; d_heapy := false |});
+    W 0 None (orc (Some 0) {| d_taken := []; d_sel := Some (a_sel [1]); d_forget := []; d_act := Some (AAwait [1]); d_park := false; d_fin := None; d_heapy := false |});
+    E []; W 0 None (orc None idle_did); E [];                                    (* !p1: query, answer, update *)
+    W 0 None (orc (Some 0) {| d_taken := []; d_sel := None; d_forget := [1]; d_act := Some (ADeliver 2); d_park := false; d_fin := None; d_heapy := false |});
+    E [];                                                                        (* 1 p3 on its way *)
+    W 0 (Some 0) (orc (Some 0) {| d_taken := []; d_sel := Some (a_sel [1; 2]); d_forget := []; d_act := Some (AAwait [1; 2]); d_park := false; d_fin := None; d_heapy := false |});
+    E [];                                                                        (* ! [p1, p3]: the query is sent *)
+    W 0 None (orc (Some 2) {| d_taken := [0]; d_sel := None; d_forget := []; d_act := None; d_park := false; d_fin := Some (ROk 33); d_heapy := false |}) ].
+
+Theorem snapshot_overtaken_by_local_notification :
+  exists s nd pr,
+    run (init 1) f72_schedule = Good s /\ nth_error (s_nodes s) 0 = Some nd /\
+    w_queue (n_w nd) = [0] /\                                  (* the awaiter is runnable *)
+    alookup 0 (w_procs (n_w nd)) = Some pr /\
+    p_awaiting pr = [(1, None); (2, Some (ROk 33))] /\         (* knowing only the lower-priority result *)
+    In (EResults 0 [(1, Some (ROk 11)); (2, None)]) (n_evt nd).  (* the snapshot with p1's result is still queued *)
+Proof.
+  vm_compute. do 3 eexists. split; [reflexivity|]. split; [reflexivity|]. split; [reflexivity|].
+  split; [reflexivity|]. split; [reflexivity|]. left. reflexivity.
+Qed.
